@@ -47,7 +47,7 @@ THEOREMS = ['C06_indices_first_fastest', 'C06_items_array',
             'C06_lattice_end_to_end_1d_2d', 'C06_lattice_end_to_end_linked',
             'C06_link_inverse_satisfiable', 'C06_lattice_end_to_end_conv_linked',
             'C06_fill_array_read_as_mcnp',
-            'C06_parse_fill_kw_flat']
+            'C06_parse_fill_kw_flat', 'C06_tokenize_fill_array']
 TRUSTED = [
     'hand-written model coq/C06/Model.v (modelled, tied by execution only)',
     'cells, surfaces other than planes and the effect of a transformation on a '
